@@ -145,6 +145,12 @@ Proofs/WasmProofs.vos Proofs/WasmProofs.vok Proofs/WasmProofs.required_vos: Proo
 Proofs/RestProofs.vo Proofs/RestProofs.glob Proofs/RestProofs.v.beautified Proofs/RestProofs.required_vo: Proofs/RestProofs.v Base/Prelude.vo Hash/Sha.vo Generated/Tables.vo Model/Errors.vo Model/Decoder.vo Model/Derive.vo Model/Otp.vo Model/Ocra.vo Model/Utils.vo Model/Random.vo Model/Suite.vo Model/Url.vo Model/Rest.vo Spec/Rfc4226.vo Proofs/DeriveProofs.vo Proofs/OtpProofs.vo Proofs/OcraProofs.vo Proofs/TotalProofs.vo Proofs/SuiteProofs.vo
 Proofs/RestProofs.vio: Proofs/RestProofs.v Base/Prelude.vio Hash/Sha.vio Generated/Tables.vio Model/Errors.vio Model/Decoder.vio Model/Derive.vio Model/Otp.vio Model/Ocra.vio Model/Utils.vio Model/Random.vio Model/Suite.vio Model/Url.vio Model/Rest.vio Spec/Rfc4226.vio Proofs/DeriveProofs.vio Proofs/OtpProofs.vio Proofs/OcraProofs.vio Proofs/TotalProofs.vio Proofs/SuiteProofs.vio
 Proofs/RestProofs.vos Proofs/RestProofs.vok Proofs/RestProofs.required_vos: Proofs/RestProofs.v Base/Prelude.vos Hash/Sha.vos Generated/Tables.vos Model/Errors.vos Model/Decoder.vos Model/Derive.vos Model/Otp.vos Model/Ocra.vos Model/Utils.vos Model/Random.vos Model/Suite.vos Model/Url.vos Model/Rest.vos Spec/Rfc4226.vos Proofs/DeriveProofs.vos Proofs/OtpProofs.vos Proofs/OcraProofs.vos Proofs/TotalProofs.vos Proofs/SuiteProofs.vos
+Proofs/LeakProofs.vo Proofs/LeakProofs.glob Proofs/LeakProofs.v.beautified Proofs/LeakProofs.required_vo: Proofs/LeakProofs.v Base/Prelude.vo Hash/Sha.vo Generated/Tables.vo Model/Errors.vo Model/Decoder.vo Model/Derive.vo Model/Otp.vo Model/Ocra.vo
+Proofs/LeakProofs.vio: Proofs/LeakProofs.v Base/Prelude.vio Hash/Sha.vio Generated/Tables.vio Model/Errors.vio Model/Decoder.vio Model/Derive.vio Model/Otp.vio Model/Ocra.vio
+Proofs/LeakProofs.vos Proofs/LeakProofs.vok Proofs/LeakProofs.required_vos: Proofs/LeakProofs.v Base/Prelude.vos Hash/Sha.vos Generated/Tables.vos Model/Errors.vos Model/Decoder.vos Model/Derive.vos Model/Otp.vos Model/Ocra.vos
+Proofs/NameProofs.vo Proofs/NameProofs.glob Proofs/NameProofs.v.beautified Proofs/NameProofs.required_vo: Proofs/NameProofs.v Base/Prelude.vo Hash/Sha.vo Model/Errors.vo Model/Ocra.vo Model/Utils.vo Model/Suite.vo Spec/Rfc4226.vo Spec/SuiteName.vo Proofs/DeriveProofs.vo Proofs/UtilsProofs.vo Proofs/SuiteProofs.vo
+Proofs/NameProofs.vio: Proofs/NameProofs.v Base/Prelude.vio Hash/Sha.vio Model/Errors.vio Model/Ocra.vio Model/Utils.vio Model/Suite.vio Spec/Rfc4226.vio Spec/SuiteName.vio Proofs/DeriveProofs.vio Proofs/UtilsProofs.vio Proofs/SuiteProofs.vio
+Proofs/NameProofs.vos Proofs/NameProofs.vok Proofs/NameProofs.required_vos: Proofs/NameProofs.v Base/Prelude.vos Hash/Sha.vos Model/Errors.vos Model/Ocra.vos Model/Utils.vos Model/Suite.vos Spec/Rfc4226.vos Spec/SuiteName.vos Proofs/DeriveProofs.vos Proofs/UtilsProofs.vos Proofs/SuiteProofs.vos
 Properties/C08.vo Properties/C08.glob Properties/C08.v.beautified Properties/C08.required_vo: Properties/C08.v Base/Prelude.vo Spec/Rfc4648.vo Model/Decoder.vo Model/Random.vo Proofs/Base32Proofs.vo Proofs/UtilsProofs.vo
 Properties/C08.vio: Properties/C08.v Base/Prelude.vio Spec/Rfc4648.vio Model/Decoder.vio Model/Random.vio Proofs/Base32Proofs.vio Proofs/UtilsProofs.vio
 Properties/C08.vos Properties/C08.vok Properties/C08.required_vos: Properties/C08.v Base/Prelude.vos Spec/Rfc4648.vos Model/Decoder.vos Model/Random.vos Proofs/Base32Proofs.vos Proofs/UtilsProofs.vos
@@ -160,12 +166,12 @@ Properties/C11.vos Properties/C11.vok Properties/C11.required_vos: Properties/C1
 Properties/C12.vo Properties/C12.glob Properties/C12.v.beautified Properties/C12.required_vo: Properties/C12.v Base/Prelude.vo Model/Derive.vo Model/Flow.vo Generated/SsaNative.vo Generated/SsaWasm.vo Proofs/OcraProofs.vo
 Properties/C12.vio: Properties/C12.v Base/Prelude.vio Model/Derive.vio Model/Flow.vio Generated/SsaNative.vio Generated/SsaWasm.vio Proofs/OcraProofs.vio
 Properties/C12.vos Properties/C12.vok Properties/C12.required_vos: Properties/C12.v Base/Prelude.vos Model/Derive.vos Model/Flow.vos Generated/SsaNative.vos Generated/SsaWasm.vos Proofs/OcraProofs.vos
-Properties/C13.vo Properties/C13.glob Properties/C13.v.beautified Properties/C13.required_vo: Properties/C13.v Base/Prelude.vo Hash/Sha.vo Generated/Tables.vo Generated/ErrTexts.vo Model/Errors.vo Model/Decoder.vo Model/Derive.vo Model/Otp.vo Model/Ocra.vo Proofs/DeriveProofs.vo Proofs/OtpProofs.vo Proofs/OcraProofs.vo
-Properties/C13.vio: Properties/C13.v Base/Prelude.vio Hash/Sha.vio Generated/Tables.vio Generated/ErrTexts.vio Model/Errors.vio Model/Decoder.vio Model/Derive.vio Model/Otp.vio Model/Ocra.vio Proofs/DeriveProofs.vio Proofs/OtpProofs.vio Proofs/OcraProofs.vio
-Properties/C13.vos Properties/C13.vok Properties/C13.required_vos: Properties/C13.v Base/Prelude.vos Hash/Sha.vos Generated/Tables.vos Generated/ErrTexts.vos Model/Errors.vos Model/Decoder.vos Model/Derive.vos Model/Otp.vos Model/Ocra.vos Proofs/DeriveProofs.vos Proofs/OtpProofs.vos Proofs/OcraProofs.vos
-Properties/C15.vo Properties/C15.glob Properties/C15.v.beautified Properties/C15.required_vo: Properties/C15.v Base/Prelude.vo Hash/Sha.vo Model/Errors.vo Model/Ocra.vo Model/Suite.vo Spec/SuiteName.vo Proofs/OcraProofs.vo Proofs/SuiteProofs.vo
-Properties/C15.vio: Properties/C15.v Base/Prelude.vio Hash/Sha.vio Model/Errors.vio Model/Ocra.vio Model/Suite.vio Spec/SuiteName.vio Proofs/OcraProofs.vio Proofs/SuiteProofs.vio
-Properties/C15.vos Properties/C15.vok Properties/C15.required_vos: Properties/C15.v Base/Prelude.vos Hash/Sha.vos Model/Errors.vos Model/Ocra.vos Model/Suite.vos Spec/SuiteName.vos Proofs/OcraProofs.vos Proofs/SuiteProofs.vos
+Properties/C13.vo Properties/C13.glob Properties/C13.v.beautified Properties/C13.required_vo: Properties/C13.v Base/Prelude.vo Hash/Sha.vo Generated/Tables.vo Generated/ErrTexts.vo Model/Errors.vo Model/Decoder.vo Model/Derive.vo Model/Otp.vo Model/Ocra.vo Proofs/DeriveProofs.vo Proofs/OtpProofs.vo Proofs/OcraProofs.vo Proofs/LeakProofs.vo
+Properties/C13.vio: Properties/C13.v Base/Prelude.vio Hash/Sha.vio Generated/Tables.vio Generated/ErrTexts.vio Model/Errors.vio Model/Decoder.vio Model/Derive.vio Model/Otp.vio Model/Ocra.vio Proofs/DeriveProofs.vio Proofs/OtpProofs.vio Proofs/OcraProofs.vio Proofs/LeakProofs.vio
+Properties/C13.vos Properties/C13.vok Properties/C13.required_vos: Properties/C13.v Base/Prelude.vos Hash/Sha.vos Generated/Tables.vos Generated/ErrTexts.vos Model/Errors.vos Model/Decoder.vos Model/Derive.vos Model/Otp.vos Model/Ocra.vos Proofs/DeriveProofs.vos Proofs/OtpProofs.vos Proofs/OcraProofs.vos Proofs/LeakProofs.vos
+Properties/C15.vo Properties/C15.glob Properties/C15.v.beautified Properties/C15.required_vo: Properties/C15.v Base/Prelude.vo Hash/Sha.vo Model/Errors.vo Model/Ocra.vo Model/Suite.vo Spec/SuiteName.vo Proofs/OcraProofs.vo Proofs/SuiteProofs.vo Proofs/NameProofs.vo
+Properties/C15.vio: Properties/C15.v Base/Prelude.vio Hash/Sha.vio Model/Errors.vio Model/Ocra.vio Model/Suite.vio Spec/SuiteName.vio Proofs/OcraProofs.vio Proofs/SuiteProofs.vio Proofs/NameProofs.vio
+Properties/C15.vos Properties/C15.vok Properties/C15.required_vos: Properties/C15.v Base/Prelude.vos Hash/Sha.vos Model/Errors.vos Model/Ocra.vos Model/Suite.vos Spec/SuiteName.vos Proofs/OcraProofs.vos Proofs/SuiteProofs.vos Proofs/NameProofs.vos
 Properties/C16.vo Properties/C16.glob Properties/C16.v.beautified Properties/C16.required_vo: Properties/C16.v Base/Prelude.vo Model/Errors.vo Model/Utils.vo Model/Url.vo Proofs/UrlProofs.vo
 Properties/C16.vio: Properties/C16.v Base/Prelude.vio Model/Errors.vio Model/Utils.vio Model/Url.vio Proofs/UrlProofs.vio
 Properties/C16.vos Properties/C16.vok Properties/C16.required_vos: Properties/C16.v Base/Prelude.vos Model/Errors.vos Model/Utils.vos Model/Url.vos Proofs/UrlProofs.vos
